@@ -383,6 +383,9 @@ impl VectorStorage for MmapStorage {
         let arc: Arc<[f32]> = vector.into();
         cache.insert(id, arc);
 
+        // update_header_count() locks `file` again: release everything first, the
+        // cache included (get() locks `file` before `cache`)
+        drop(cache);
         drop(file);
         drop(offset);
         self.update_header_count()
